@@ -67,6 +67,7 @@ type thread struct {
 	done     func()
 	releases int
 	busy     bool // a command has been handed over and is not finished
+	stopped  bool // the command channel is closed
 }
 
 type dialrec struct {
@@ -249,6 +250,7 @@ func (c *ctl) dial(ctx context.Context, target string, _ ...grpc.DialOption) (*g
 
 func (c *ctl) worker(t *thread, ctx context.Context, dialer string) {
 	g := goid()
+	cmd := t.cmd
 	c.mu.Lock()
 	c.byGoid[g] = t.id
 	t.goid = g
@@ -292,7 +294,7 @@ func (c *ctl) worker(t *thread, ctx context.Context, dialer string) {
 		c.rets = append(c.rets, r)
 		c.mu.Unlock()
 	}()
-	for range t.cmd {
+	for range cmd {
 		func() {
 			defer func() {
 				if r := recover(); r != nil {
@@ -545,12 +547,14 @@ func (c *ctl) do(e Ev) Obs {
 }
 
 // finish lets every goroutine of the case run to its end and closes what is
-// still open.
-func (c *ctl) finish() {
+// still open.  It reports whether goroutines of the case stayed behind (only
+// on a defective implementation); the child process is then replaced.
+func (c *ctl) finish() (wedged bool) {
 	c.mu.Lock()
 	c.cleanup = true
 	c.mu.Unlock()
-	for round := 0; round < 50; round++ {
+	left := 0
+	for round := 0; round < 4; round++ {
 		c.mu.Lock()
 		for _, cancel := range c.cancels {
 			cancel()
@@ -572,26 +576,23 @@ func (c *ctl) finish() {
 			}
 		}
 		for _, t := range c.threads {
-			if t.cmd != nil && t.returned && !t.busy {
+			if !t.stopped && t.returned && !t.busy {
 				close(t.cmd)
-				t.cmd = nil
+				t.stopped = true
 			}
 		}
 		c.mu.Unlock()
-		c.settle(200 * time.Millisecond)
+		c.settle(100 * time.Millisecond)
 		c.mu.Lock()
-		left := 0
+		left = 0
 		for _, t := range c.threads {
-			if t.cmd != nil {
+			if !t.stopped {
 				left++
 			}
 		}
 		c.mu.Unlock()
 		if left == 0 {
 			break
-		}
-		if round > 5 {
-			break // wedged threads stay behind (only on a defective implementation)
 		}
 	}
 	c.mu.Lock()
@@ -602,5 +603,7 @@ func (c *ctl) finish() {
 	current.mu.Lock()
 	current.c = nil
 	current.mu.Unlock()
-	c.settle(200 * time.Millisecond)
+	quiet := c.settle(100 * time.Millisecond)
+	_, n := c.quiet()
+	return left > 0 || !quiet || n > 0
 }
